@@ -29,3 +29,640 @@ Qed.
 
 Lemma wfb_wf : forall size v, wfb size v = true <-> wf size v.
 Proof. intros. unfold wfb, wf. apply wfb_from_spec. Qed.
+
+(* ---------------------------------------------------------------------------------------- *)
+(* the working predicate: ok pos len lo size l  <->  wfb_from lo size (view pos len l)        *)
+(* ---------------------------------------------------------------------------------------- *)
+
+Fixpoint ok (pos len : handle -> Z) (lo size : Z) (l : list handle) : Prop :=
+  match l with
+  | [] => True
+  | t :: r => lo <= pos t /\ 1 <= len t /\ pos t + len t <= size /\ ok pos len (pos t + len t) size r
+  end.
+
+Lemma ok_wfb : forall pos len l lo size,
+  ok pos len lo size l <-> wfb_from lo size (view pos len l) = true.
+Proof.
+  induction l as [|t r IH]; intros lo size; cbn [ok view map wfb_from].
+  - tauto.
+  - unfold i_end, i_start, i_len; cbn [fst snd]. rewrite !andb_true_iff, <- IH.
+    rewrite !Z.leb_le. tauto.
+Qed.
+
+Lemma ok_wf : forall pos len l size, ok pos len 0 size l <-> wf size (view pos len l).
+Proof. intros. rewrite ok_wfb. apply wfb_wf. Qed.
+
+Lemma ok_weaken_lo : forall pos len l lo lo' size, lo' <= lo -> ok pos len lo size l -> ok pos len lo' size l.
+Proof. destruct l; cbn [ok]; intros; [exact I|]. intuition lia. Qed.
+
+Lemma ok_weaken_size : forall pos len l lo size size', size <= size' -> ok pos len lo size l -> ok pos len lo size' l.
+Proof.
+  induction l as [|t r IH]; cbn [ok]; intros lo size size' Hs H; [exact I|].
+  destruct H as (H1 & H2 & H3 & H4). repeat split; try lia. eapply IH; eauto.
+Qed.
+
+(* every element starts at or after lo, has len >= 1, ends within size *)
+Lemma ok_In : forall pos len l lo size t, ok pos len lo size l -> In t l ->
+  lo <= pos t /\ 1 <= len t /\ pos t + len t <= size.
+Proof.
+  induction l as [|a r IH]; cbn [ok In]; intros lo size t H Hin; [contradiction|].
+  destruct H as (H1 & H2 & H3 & H4). destruct Hin as [->|Hin]; [lia|].
+  specialize (IH _ _ _ H4 Hin). lia.
+Qed.
+
+Lemma ok_not_In_lt : forall pos len l lo size t, ok pos len lo size l -> pos t < lo -> ~ In t l.
+Proof. intros * H Hlt Hin. pose proof (ok_In _ _ _ _ _ _ H Hin). lia. Qed.
+
+Lemma ok_NoDup : forall pos len l lo size, ok pos len lo size l -> NoDup l.
+Proof.
+  induction l as [|a r IH]; cbn [ok]; intros lo size H; constructor.
+  - destruct H as (H1 & H2 & H3 & H4). eapply ok_not_In_lt; [exact H4|lia].
+  - destruct H as (_ & _ & _ & H4). eapply IH; eauto.
+Qed.
+
+(* ok depends only on pos and len over the list *)
+Lemma ok_ext : forall pos pos' len len' l lo size,
+  (forall t, In t l -> pos' t = pos t /\ len' t = len t) ->
+  ok pos len lo size l -> ok pos' len' lo size l.
+Proof.
+  induction l as [|a r IH]; cbn [ok]; intros lo size Hext H; [exact I|].
+  destruct (Hext a (or_introl eq_refl)) as [-> ->].
+  destruct H as (H1 & H2 & H3 & H4). repeat split; try assumption.
+  apply IH; [|exact H4]. intros t Ht. apply Hext. right; exact Ht.
+Qed.
+
+Lemma upd_same : forall {A} (f : nat -> A) x v, upd f x v x = v.
+Proof. intros. unfold upd. rewrite Nat.eqb_refl. reflexivity. Qed.
+Lemma upd_other : forall {A} (f : nat -> A) x v y, y <> x -> upd f x v y = f y.
+Proof. intros. unfold upd. destruct (Nat.eqb_spec y x); congruence. Qed.
+
+Lemma ok_upd_notin : forall pos len l lo size x v, ~ In x l -> ok pos len lo size l -> ok (upd pos x v) len lo size l.
+Proof.
+  intros * Hn H. eapply ok_ext; [|exact H]. intros t Ht. split; [|reflexivity].
+  apply upd_other. intros ->. contradiction.
+Qed.
+
+(* sub-lists (filter) stay ok *)
+Lemma ok_filter : forall pos len f l lo size, ok pos len lo size l -> ok pos len lo size (filter f l).
+Proof.
+  induction l as [|a r IH]; cbn [ok filter]; intros lo size H; [exact I|].
+  destruct H as (H1 & H2 & H3 & H4). destruct (f a); cbn [ok].
+  - repeat split; try assumption. apply IH; exact H4.
+  - eapply ok_weaken_lo; [|apply IH; exact H4]. lia.
+Qed.
+
+Lemma ok_remove : forall pos len l lo size x, ok pos len lo size l -> ok pos len lo size (do_remove l x).
+Proof. intros. apply ok_filter; assumption. Qed.
+
+(* end of the last element, or lo for the empty list *)
+Fixpoint lend (pos len : handle -> Z) (lo : Z) (l : list handle) : Z :=
+  match l with [] => lo | t :: r => lend pos len (pos t + len t) r end.
+
+Lemma lend_app : forall pos len l1 l2 lo, lend pos len lo (l1 ++ l2) = lend pos len (lend pos len lo l1) l2.
+Proof. induction l1; intros; cbn [app lend]; auto. Qed.
+
+Lemma last_end_lend : forall pos len l, last_end len pos l = lend pos len 0 l.
+Proof.
+  intros. unfold last_end. rewrite <- (rev_involutive l) at 2. destruct (rev l) as [|t r]; [reflexivity|].
+  cbn [rev]. rewrite lend_app. reflexivity.
+Qed.
+
+Lemma lend_nonempty : forall pos len l lo lo', l <> [] -> lend pos len lo l = lend pos len lo' l.
+Proof. destruct l; intros; [congruence|reflexivity]. Qed.
+
+Lemma ok_app : forall pos len l1 l2 lo size,
+  ok pos len lo size (l1 ++ l2) <-> ok pos len lo size l1 /\ ok pos len (lend pos len lo l1) size l2.
+Proof.
+  induction l1 as [|a r IH]; intros l2 lo size; cbn [app ok lend].
+  - tauto.
+  - rewrite IH. tauto.
+Qed.
+
+Lemma ok_lend : forall pos len l lo size, ok pos len lo size l -> lo <= lend pos len lo l /\ (l <> [] -> lend pos len lo l <= size).
+Proof.
+  induction l as [|a r IH]; cbn [ok lend]; intros lo size H; [split; [lia|congruence]|].
+  destruct H as (H1 & H2 & H3 & H4). destruct (IH _ _ H4) as [Ha Hb]. split; [lia|intros _].
+  destruct r; [cbn [lend]; lia|apply Hb; discriminate].
+Qed.
+
+(* ---------------------------------------------------------------------------------------- *)
+(* append                                                                                    *)
+(* ---------------------------------------------------------------------------------------- *)
+
+Lemma verify_append_spec : forall len pos size l x,
+  verify_append len pos size l x = None <-> len x <= size - last_end len pos l.
+Proof.
+  intros. unfold verify_append. destruct l as [|a r].
+  - unfold last_end; cbn [rev]. destruct (Z.ltb_spec size (len x)); split; intros; try discriminate; try reflexivity; lia.
+  - destruct (Z.ltb_spec (size - last_end len pos (a :: r)) (len x)); split; intros; try discriminate; try reflexivity; lia.
+Qed.
+
+Lemma lend_upd_notin : forall pos len l lo x v, ~ In x l -> lend (upd pos x v) len lo l = lend pos len lo l.
+Proof.
+  induction l as [|a r IH]; intros lo x v Hn; cbn [lend]; [reflexivity|].
+  rewrite upd_other by (intros ->; apply Hn; left; reflexivity). apply IH. intros Hin; apply Hn; right; exact Hin.
+Qed.
+
+Lemma ok_append : forall pos len l size x,
+  ok pos len 0 size l -> ~ In x l -> 1 <= len x -> len x <= size - last_end len pos l ->
+  ok (upd pos x (last_end len pos l)) len 0 size (l ++ [x]).
+Proof.
+  intros * H Hn Hl Hfit. rewrite last_end_lend in *. apply ok_app. split.
+  - apply ok_upd_notin; assumption.
+  - cbn [ok]. rewrite upd_same.
+    assert (E : lend (upd pos x (lend pos len 0 l)) len 0 l = lend pos len 0 l) by (apply lend_upd_notin; exact Hn).
+    rewrite E. pose proof (ok_lend _ _ _ _ _ H). repeat split; try lia.
+Qed.
+
+(* ---------------------------------------------------------------------------------------- *)
+(* insert                                                                                    *)
+(* ---------------------------------------------------------------------------------------- *)
+
+Definition disjoint_from (pos len : handle -> Z) (l : list handle) (b e : Z) : Prop :=
+  forall t, In t l -> e <= pos t \/ pos t + len t <= b.
+
+Lemma insert_loop_spec : forall pos len l lo size b e,
+  ok pos len lo size l -> (insert_loop len pos l b e = true <-> disjoint_from pos len l b e).
+Proof.
+  induction l as [|t r IH]; intros lo size b e H; cbn [insert_loop].
+  - split; [intros _ t []|reflexivity].
+  - cbn [ok] in H. destruct H as (H1 & H2 & H3 & H4).
+    destruct (Z.leb_spec e (pos t)).
+    + split; [|reflexivity]. intros _ y [<-|Hy]; [left; lia|].
+      pose proof (ok_In _ _ _ _ _ _ H4 Hy). left; lia.
+    + destruct (Z.leb_spec (pos t + len t) b).
+      * rewrite (IH _ _ b e H4). split.
+        -- intros Hd y [<-|Hy]; [right; lia|apply Hd; exact Hy].
+        -- intros Hd y Hy. apply Hd. right; exact Hy.
+      * assert (Hor : ((pos t <=? b) || (pos t <? e)) = true).
+        { apply orb_true_iff. right. apply Z.ltb_lt. lia. }
+        rewrite Hor. split; [discriminate|]. intros Hd. destruct (Hd t (or_introl eq_refl)); lia.
+Qed.
+
+Lemma verify_insert_spec : forall pos len l size x b,
+  ok pos len 0 size l ->
+  (verify_insert len pos size l x b = None <->
+   0 <= b /\ len x <= size /\ b + len x <= size /\ disjoint_from pos len l b (b + len x)).
+Proof.
+  intros * H. unfold verify_insert.
+  destruct (Z.ltb_spec b 0); [split; [discriminate|intros; lia]|].
+  destruct (Z.ltb_spec size (len x)); [split; [discriminate|intros; lia]|].
+  destruct (Z.ltb_spec size (b + len x)); [split; [discriminate|intros; lia]|].
+  pose proof (insert_loop_spec _ _ _ _ _ b (b + len x) H) as Hs.
+  destruct (insert_loop len pos l b (b + len x)).
+  - split; [intros _|reflexivity]. repeat split; try lia. apply Hs; reflexivity.
+  - split; [discriminate|]. intros (_ & _ & _ & Hd). apply Hs in Hd. discriminate.
+Qed.
+
+Lemma ok_insert_at : forall pos len l lo size x b,
+  ok pos len lo size l -> ~ In x l -> lo <= b -> b + len x <= size -> 1 <= len x ->
+  disjoint_from pos len l b (b + len x) ->
+  ok (upd pos x b) len lo size (insert_at pos l x b).
+Proof.
+  induction l as [|t r IH]; intros lo size x b H Hn Hlo Hsz Hl Hd; cbn [insert_at].
+  - cbn [ok]. rewrite upd_same. repeat split; lia.
+  - cbn [ok] in H. destruct H as (H1 & H2 & H3 & H4).
+    assert (Hxt : t <> x) by (intros ->; apply Hn; left; reflexivity).
+    assert (Hnr : ~ In x r) by (intros Hin; apply Hn; right; exact Hin).
+    destruct (Hd t (or_introl eq_refl)) as [Hdt|Hdt]; destruct (Z.ltb_spec b (pos t)); try lia.
+    + cbn [ok]. rewrite upd_same, (upd_other pos x b t Hxt). repeat split; try lia.
+      apply ok_upd_notin; assumption.
+    + cbn [ok]. rewrite (upd_other pos x b t Hxt). repeat split; try lia.
+      apply IH; try assumption; try lia. intros y Hy. apply Hd. right; exact Hy.
+Qed.
+
+Lemma insert_at_In : forall pos l x b y, In y (insert_at pos l x b) <-> y = x \/ In y l.
+Proof.
+  induction l as [|t r IH]; intros x b y; cbn [insert_at].
+  - cbn. intuition.
+  - destruct (b <? pos t); cbn [In]; [intuition|]. rewrite IH. intuition.
+Qed.
+
+(* ---------------------------------------------------------------------------------------- *)
+(* compact                                                                                   *)
+(* ---------------------------------------------------------------------------------------- *)
+
+Fixpoint gapfree (pos len : handle -> Z) (at_ : Z) (l : list handle) : Prop :=
+  match l with [] => True | t :: r => pos t = at_ /\ gapfree pos len (at_ + len t) r end.
+
+Lemma compact_from_frame : forall len l pos last y, ~ In y l -> compact_from len pos l last y = pos y.
+Proof.
+  induction l as [|t r IH]; intros pos last y Hn; cbn [compact_from]; [reflexivity|].
+  assert (Hy : y <> t) by (intros ->; apply Hn; left; reflexivity).
+  assert (Hr : ~ In y r) by (intros Hin; apply Hn; right; exact Hin).
+  destruct (pos t =? last); [apply IH; exact Hr|].
+  destruct (last <? pos t); rewrite IH by exact Hr; [apply upd_other; exact Hy|reflexivity].
+Qed.
+
+Lemma compact_from_spec : forall len l pos lo size last,
+  ok pos len lo size l -> last <= lo ->
+  gapfree (compact_from len pos l last) len last l
+  /\ (forall t, In t l -> compact_from len pos l last t <= pos t).
+Proof.
+  induction l as [|t r IH]; intros pos lo size last H Hle; cbn [compact_from gapfree]; [split; [exact I|intros ? []]|].
+  cbn [ok] in H. destruct H as (H1 & H2 & H3 & H4).
+  assert (Hnt : ~ In t r) by (eapply ok_not_In_lt; [exact H4|lia]).
+  destruct (Z.eqb_spec (pos t) last) as [E|NE].
+  - destruct (IH pos _ _ (last + len t) H4 ltac:(lia)) as [G L]. split.
+    + split; [rewrite compact_from_frame by exact Hnt; exact E|exact G].
+    + intros y [<-|Hy]; [rewrite compact_from_frame by exact Hnt; lia|apply L; exact Hy].
+  - destruct (Z.ltb_spec last (pos t)); [|lia].
+    assert (H4' : ok (upd pos t last) len (pos t + len t) size r) by (apply ok_upd_notin; assumption).
+    destruct (IH (upd pos t last) _ _ (last + len t) H4' ltac:(lia)) as [G L]. split.
+    + split; [rewrite compact_from_frame by exact Hnt; apply upd_same|exact G].
+    + intros y [<-|Hy].
+      * rewrite compact_from_frame by exact Hnt. rewrite upd_same. lia.
+      * specialize (L y Hy). rewrite upd_other in L; [exact L|intros ->; contradiction].
+Qed.
+
+Lemma gapfree_ok : forall pos len l at_ size,
+  gapfree pos len at_ l -> (forall t, In t l -> 1 <= len t /\ pos t + len t <= size) -> ok pos len at_ size l.
+Proof.
+  induction l as [|t r IH]; intros at_ size G B; cbn [ok]; [exact I|].
+  cbn [gapfree] in G. destruct G as [E G]. destruct (B t (or_introl eq_refl)). repeat split; try lia.
+  rewrite E. apply IH; [exact G|]. intros y Hy. apply B. right; exact Hy.
+Qed.
+
+Lemma ok_compact : forall pos len l size,
+  ok pos len 0 size l ->
+  ok (do_compact len pos l) len 0 size l /\ gapfree (do_compact len pos l) len 0 l
+  /\ (forall y, ~ In y l -> do_compact len pos l y = pos y).
+Proof.
+  intros * H. unfold do_compact. destruct (compact_from_spec len l pos 0 size 0 H ltac:(lia)) as [G L].
+  split; [|split; [exact G|intros; apply compact_from_frame; assumption]].
+  apply gapfree_ok; [exact G|]. intros t Ht. pose proof (ok_In _ _ _ _ _ _ H Ht). specialize (L t Ht). lia.
+Qed.
+
+(* ---------------------------------------------------------------------------------------- *)
+(* shrink                                                                                    *)
+(* ---------------------------------------------------------------------------------------- *)
+
+Lemma shrink_loop_frame : forall l pos x a found y, ~ In y l -> shrink_loop pos l x a found y = pos y.
+Proof.
+  induction l as [|t r IH]; intros pos x a found y Hn; cbn [shrink_loop]; [reflexivity|].
+  assert (Hy : y <> t) by (intros ->; apply Hn; left; reflexivity).
+  assert (Hr : ~ In y r) by (intros Hin; apply Hn; right; exact Hin).
+  destruct found; rewrite IH by exact Hr; [apply upd_other; exact Hy|reflexivity].
+Qed.
+
+(* everything moves left by a once found *)
+Lemma shrink_loop_all : forall l pos x a y, NoDup l -> In y l -> shrink_loop pos l x a true y = pos y - a.
+Proof.
+  induction l as [|t r IH]; intros pos x a y Hnd Hin; [contradiction|]. cbn [shrink_loop].
+  inversion Hnd as [|? ? Hnt Hnd']; subst. destruct Hin as [<-|Hin].
+  - rewrite shrink_loop_frame by exact Hnt. apply upd_same.
+  - rewrite IH by assumption. rewrite upd_other; [reflexivity|intros ->; contradiction].
+Qed.
+
+Lemma ok_shift_all : forall pos pos' len l lo size a,
+  0 <= a -> (forall t, In t l -> pos' t = pos t - a) -> ok pos len lo size l -> ok pos' len (lo - a) size l.
+Proof.
+  induction l as [|t r IH]; intros lo size a Ha He H; cbn [ok]; [exact I|].
+  cbn [ok] in H. destruct H as (H1 & H2 & H3 & H4). rewrite (He t (or_introl eq_refl)).
+  repeat split; try lia. replace (pos t - a + len t) with (pos t + len t - a) by lia.
+  apply IH; try assumption. intros y Hy. apply He. right; exact Hy.
+Qed.
+
+(* shrinking x by a (0 <= a < len x) and pulling its followers keeps the layout well-formed
+   with respect to the new size of x *)
+Lemma ok_shrink : forall pos len l lo size x a,
+  ok pos len lo size l -> In x l -> 0 <= a -> a < len x ->
+  ok (shrink_loop pos l x a false) (upd len x (len x - a)) lo size l.
+Proof.
+  induction l as [|t r IH]; intros lo size x a H Hin Ha Hlt; [contradiction|].
+  pose proof (ok_NoDup _ _ _ _ _ H) as Hnd. inversion Hnd as [|? ? Hnt Hnd']; subst.
+  cbn [ok] in H. destruct H as (H1 & H2 & H3 & H4). cbn [shrink_loop ok].
+  destruct (Nat.eqb_spec x t) as [->|NE].
+  - rewrite shrink_loop_frame by exact Hnt. rewrite upd_same. repeat split; try lia.
+    replace (pos t + (len t - a)) with (pos t + len t - a) by lia.
+    eapply ok_ext; [|eapply (ok_shift_all pos (shrink_loop pos r t a true) len r _ size a Ha); [|exact H4]].
+    + intros y Hy. split; [reflexivity|]. apply upd_other. intros ->; contradiction.
+    + intros y Hy. apply shrink_loop_all; assumption.
+  - destruct Hin as [->|Hin]; [congruence|].
+    rewrite shrink_loop_frame by exact Hnt. rewrite (upd_other len x _ t) by congruence.
+    repeat split; try lia. apply IH; assumption.
+Qed.
+
+(* followers of x: the elements behind its first occurrence *)
+Lemma shrink_loop_false_frame : forall l pos x a y,
+  (forall fs, followers l x = Some fs -> ~ In y fs) -> shrink_loop pos l x a false y = pos y.
+Proof.
+  induction l as [|t r IH]; intros pos x a y Hf; cbn [shrink_loop]; [reflexivity|].
+  cbn [followers] in Hf. destruct (Nat.eqb_spec x t) as [->|NE].
+  - apply shrink_loop_frame. apply Hf. reflexivity.
+  - apply IH. exact Hf.
+Qed.
+
+Lemma followers_In : forall l x fs, followers l x = Some fs -> In x l /\ (forall y, In y fs -> In y l).
+Proof.
+  induction l as [|t r IH]; intros x fs H; cbn [followers] in H; [discriminate|].
+  destruct (Nat.eqb_spec x t) as [->|NE].
+  - inversion H; subst. split; [left; reflexivity|intros; right; assumption].
+  - destruct (IH _ _ H) as [A B]. split; [right; exact A|intros; right; apply B; assumption].
+Qed.
+
+Lemma followers_None : forall l x, followers l x = None <-> ~ In x l.
+Proof.
+  induction l as [|t r IH]; intros x; cbn [followers In]; [tauto|].
+  destruct (Nat.eqb_spec x t) as [->|NE]; [split; [discriminate|intros H; exfalso; apply H; left; reflexivity]|].
+  rewrite IH. intuition congruence.
+Qed.
+
+(* ---------------------------------------------------------------------------------------- *)
+(* grow                                                                                      *)
+(* ---------------------------------------------------------------------------------------- *)
+
+(* free space behind `prev` in the follower list fs: the gaps plus the trailing space *)
+Fixpoint free_from (pos len : handle -> Z) (prev size : Z) (fs : list handle) : Z :=
+  match fs with
+  | [] => size - prev
+  | t :: r => (pos t - prev) + free_from pos len (pos t + len t) size r
+  end.
+
+Lemma avail_loop_found : forall len pos l x avail prev size,
+  let '(a, p) := avail_loop len pos l x true avail prev in
+  a + (size - p) = avail + free_from pos len prev size l.
+Proof.
+  induction l as [|t r IH]; intros x avail prev size; cbn [avail_loop free_from]; [lia|].
+  specialize (IH x (avail + (pos t - prev)) (pos t + len t) size).
+  destruct (avail_loop len pos r x true (avail + (pos t - prev)) (pos t + len t)). lia.
+Qed.
+
+Lemma available_spec : forall len pos size l x fs,
+  followers l x = Some fs -> available len pos size l x = free_from pos len (pos x + len x) size fs.
+Proof.
+  intros len pos size l x. unfold available. generalize 0 at 2 as prev.
+  induction l as [|t r IH]; intros prev fs H; cbn [followers] in H; [discriminate|]. cbn [avail_loop].
+  destruct (Nat.eqb_spec x t) as [->|NE].
+  - inversion H; subst. rewrite Nat.eqb_refl.
+    pose proof (avail_loop_found len pos fs t 0 (pos t + len t) size) as E.
+    destruct (avail_loop len pos fs t true 0 (pos t + len t)). lia.
+  - destruct (Nat.eqb_spec t x); [congruence|]. apply IH. exact H.
+Qed.
+
+Lemma available_notin : forall len pos size l x,
+  ~ In x l -> available len pos size l x = size - lend pos len 0 l.
+Proof.
+  intros len pos size l x. unfold available. generalize 0 at 2 3 as prev.
+  induction l as [|t r IH]; intros prev Hn; cbn [avail_loop lend]; [lia|].
+  destruct (Nat.eqb_spec t x) as [->|NE]; [exfalso; apply Hn; left; reflexivity|].
+  apply IH. intros Hin; apply Hn; right; exact Hin.
+Qed.
+
+Lemma push_loop_frame : forall len pos0 fs pos prev acc y, ~ In y fs -> push_loop len pos0 pos fs prev acc y = pos y.
+Proof.
+  induction fs as [|t r IH]; intros pos prev acc y Hn; cbn [push_loop]; [reflexivity|].
+  destruct (acc <=? pos0 t - prev); [reflexivity|].
+  rewrite IH by (intros Hin; apply Hn; right; exact Hin).
+  apply upd_other. intros ->. apply Hn. left; reflexivity.
+Qed.
+
+(* pushing the followers makes room of exactly acc bits behind prev *)
+Lemma ok_push : forall len pos0 fs pos prev size acc,
+  (forall t, In t fs -> pos t = pos0 t) ->
+  ok pos0 len prev size fs -> 0 <= acc -> acc <= free_from pos0 len prev size fs ->
+  ok (push_loop len pos0 pos fs prev acc) len (prev + acc) size fs /\ prev + acc <= size.
+Proof.
+  induction fs as [|t r IH]; intros pos prev size acc Hagree H Hacc Hfree; cbn [push_loop free_from ok] in *.
+  - split; [exact I|lia].
+  - destruct H as (H1 & H2 & H3 & H4).
+    assert (Hnt : ~ In t r) by (eapply ok_not_In_lt; [exact H4|lia]).
+    destruct (Z.leb_spec acc (pos0 t - prev)).
+    + split; [|lia]. rewrite (Hagree t (or_introl eq_refl)). repeat split; try lia.
+      eapply ok_ext; [|exact H4]. intros y Hy. split; [apply Hagree; right; exact Hy|reflexivity].
+    + set (acc' := acc - (pos0 t - prev)).
+      assert (Hagree' : forall y, In y r -> upd pos t (pos t + acc') y = pos0 y).
+      { intros y Hy. rewrite upd_other by (intros ->; contradiction). apply Hagree. right; exact Hy. }
+      destruct (IH (upd pos t (pos t + acc')) (pos0 t + len t) size acc' Hagree' H4 ltac:(lia) ltac:(lia)) as [Hok Hle].
+      rewrite push_loop_frame by exact Hnt. rewrite upd_same.
+      pose proof (Hagree t (or_introl eq_refl)) as Ht. rewrite Ht in *.
+      assert (E : pos0 t + acc' = prev + acc) by (unfold acc'; lia).
+      split; [|lia]. repeat split; try lia.
+      replace (pos0 t + acc' + len t) with (pos0 t + len t + acc') by lia. exact Hok.
+Qed.
+
+Lemma ok_split_at : forall pos len l lo size x fs,
+  ok pos len lo size l -> followers l x = Some fs ->
+  ok pos len (pos x + len x) size fs /\ ~ In x fs.
+Proof.
+  induction l as [|t r IH]; intros lo size x fs H Hf; cbn [followers] in Hf; [discriminate|].
+  cbn [ok] in H. destruct H as (H1 & H2 & H3 & H4). destruct (Nat.eqb_spec x t) as [->|NE].
+  - inversion Hf; subst. split; [exact H4|]. eapply ok_not_In_lt; [exact H4|lia].
+  - eapply IH; eauto.
+Qed.
+
+(* growing x by a > 0 (after the verification) keeps the layout well-formed with respect to the
+   new size of x *)
+Lemma ok_grow_gen : forall pos len l lo size x fs pos',
+  ok pos len lo size l -> followers l x = Some fs ->
+  (forall y, ~ In y fs -> pos' y = pos y) ->
+  forall a, 0 <= a -> ok pos' len (pos x + len x + a) size fs -> pos x + len x + a <= size ->
+  ok pos' (upd len x (len x + a)) lo size l.
+Proof.
+  induction l as [|t r IH]; intros lo size x fs pos' H Hf Hfr a Ha Hfs Hend; cbn [followers] in Hf; [discriminate|].
+  pose proof (ok_NoDup _ _ _ _ _ H) as Hnd. inversion Hnd as [|? ? Hnt Hnd']; subst.
+  cbn [ok] in H. destruct H as (H1 & H2 & H3 & H4). cbn [ok].
+  destruct (Nat.eqb_spec x t) as [->|NE].
+  - inversion Hf; subst. rewrite (Hfr t Hnt), upd_same. repeat split; try lia.
+    replace (pos t + (len t + a)) with (pos t + len t + a) by lia.
+    eapply ok_ext; [|exact Hfs]. intros y Hy. split; [reflexivity|]. apply upd_other. intros ->; contradiction.
+  - assert (Htfs : ~ In t fs).
+    { intros Hin. destruct (followers_In _ _ _ Hf) as [_ B]. apply Hnt. apply B. exact Hin. }
+    rewrite (Hfr t Htfs), (upd_other len x _ t) by congruence. repeat split; try lia.
+    eapply IH; eauto.
+Qed.
+
+Lemma ok_grow : forall pos len l lo size x a,
+  ok pos len lo size l -> In x l -> 0 < a -> verify_grow len pos size l x a = None ->
+  ok (snd (do_grow len pos size l x a)) (upd len x (len x + a)) lo size l.
+Proof.
+  intros * H Hin Ha Hv. unfold do_grow. destruct (Z.eqb_spec a 0); [lia|]. rewrite Hv.
+  destruct (followers l x) as [fs|] eqn:Hf; [|apply followers_None in Hf; contradiction]. cbn [snd].
+  destruct (ok_split_at _ _ _ _ _ _ _ H Hf) as [Hfs Hxfs].
+  unfold verify_grow in Hv. destruct (a <? 0); [discriminate|].
+  rewrite (available_spec _ _ _ _ _ _ Hf) in Hv.
+  destruct (Z.ltb_spec (free_from pos len (pos x + len x) size fs) a); [discriminate|].
+  destruct (ok_push len pos fs pos (pos x + len x) size a (fun _ _ => eq_refl) Hfs ltac:(lia) ltac:(lia)) as [Hok Hle].
+  eapply ok_grow_gen; eauto; try lia. intros y Hy. apply push_loop_frame. exact Hy.
+Qed.
+
+Lemma do_grow_frame : forall pos len l size x a y,
+  (forall fs, followers l x = Some fs -> ~ In y fs) -> snd (do_grow len pos size l x a) y = pos y.
+Proof.
+  intros * Hf. unfold do_grow. destruct (a =? 0); [reflexivity|].
+  destruct (verify_grow len pos size l x a); [reflexivity|].
+  destruct (followers l x) as [fs|] eqn:E; [|reflexivity]. cbn [snd].
+  apply push_loop_frame. apply Hf. reflexivity.
+Qed.
+
+Lemma do_grow_err : forall pos len l size x a c, fst (do_grow len pos size l x a) = Some c -> snd (do_grow len pos size l x a) = pos.
+Proof.
+  intros *. unfold do_grow. destruct (a =? 0); [discriminate|].
+  destruct (verify_grow len pos size l x a); [reflexivity|].
+  destruct (followers l x); discriminate.
+Qed.
+
+Lemma do_grow_ok_iff : forall pos len l size x a, a <> 0 ->
+  (fst (do_grow len pos size l x a) = None <-> verify_grow len pos size l x a = None).
+Proof.
+  intros * Ha. unfold do_grow. destruct (Z.eqb_spec a 0); [contradiction|].
+  destruct (verify_grow len pos size l x a); [split; discriminate|].
+  destruct (followers l x); split; reflexivity.
+Qed.
+
+(* ---------------------------------------------------------------------------------------- *)
+(* resize                                                                                    *)
+(* ---------------------------------------------------------------------------------------- *)
+
+Lemma verify_resize_spec : forall len pos size l n,
+  ok pos len 0 size l -> (verify_resize len pos size l n = None <-> l = [] \/ last_end len pos l <= n).
+Proof.
+  intros * H. unfold verify_resize.
+  destruct l as [|a r]; [destruct (size <? n); split; auto|].
+  destruct (ok_lend _ _ _ _ _ H) as [_ B]. specialize (B ltac:(discriminate)). rewrite <- last_end_lend in B.
+  destruct (Z.ltb_spec size n).
+  - split; [intros _; right; lia|reflexivity].
+  - destruct (Z.ltb_spec n (last_end len pos (a :: r))).
+    + split; [discriminate|]. intros [?|?]; [discriminate|lia].
+    + split; [intros _; right; lia|reflexivity].
+Qed.
+
+Lemma ok_lend_bound : forall pos len l lo size n, ok pos len lo size l -> lend pos len lo l <= n -> ok pos len lo n l.
+Proof.
+  induction l as [|t r IH]; intros lo size n H Hv; cbn [ok lend] in *; [exact I|].
+  destruct H as (H1 & H2 & H3 & H4). pose proof (ok_lend _ _ _ _ _ H4) as [A _].
+  repeat split; try lia. eapply IH; eauto.
+Qed.
+
+Lemma ok_resize : forall pos len l size n,
+  ok pos len 0 size l -> verify_resize len pos size l n = None -> ok pos len 0 n l.
+Proof.
+  intros * H Hv. apply (verify_resize_spec _ _ _ _ n H) in Hv.
+  destruct Hv as [->|Hv]; [exact I|]. rewrite last_end_lend in Hv. eapply ok_lend_bound; eauto.
+Qed.
+
+(* ---------------------------------------------------------------------------------------- *)
+(* shift                                                                                     *)
+(* ---------------------------------------------------------------------------------------- *)
+
+(* end of the element before (the first occurrence of) x, pe if x is the first *)
+Fixpoint prev_end_from (pos len : handle -> Z) (pe : Z) (l : list handle) (x : handle) : Z :=
+  match l with
+  | [] => pe
+  | t :: r => if Nat.eqb x t then pe else prev_end_from pos len (pos t + len t) r x
+  end.
+(* start of the element after x, the layout size if x is the last *)
+Fixpoint next_start (pos : handle -> Z) (size : Z) (l : list handle) (x : handle) : Z :=
+  match l with
+  | [] => size
+  | t :: r => if Nat.eqb x t then match r with n :: _ => pos n | [] => size end else next_start pos size r x
+  end.
+
+Lemma shl_loop_spec : forall len l pos x a prev, In x l ->
+  let pe := match prev with Some p => pos p + len p | None => 0 end in
+  let tgt := Z.max (Z.max (pos x - a) 0) (prev_end_from pos len pe l x) in
+  shl_loop len pos l x a prev = (upd pos x tgt, pos x - tgt).
+Proof.
+  induction l as [|t r IH]; intros pos x a prev Hin; [contradiction|]. cbn [shl_loop prev_end_from].
+  destruct (Nat.eqb_spec x t) as [->|NE].
+  - cbn zeta. assert (E1 : (if pos t - a <? 0 then 0 else pos t - a) = Z.max (pos t - a) 0).
+    { destruct (Z.ltb_spec (pos t - a) 0); lia. }
+    rewrite E1. destruct prev as [p|].
+    + assert (E2 : (if Z.max (pos t - a) 0 <? pos p + len p then pos p + len p else Z.max (pos t - a) 0)
+                   = Z.max (Z.max (pos t - a) 0) (pos p + len p)).
+      { destruct (Z.ltb_spec (Z.max (pos t - a) 0) (pos p + len p)); lia. }
+      rewrite E2. reflexivity.
+    + replace (Z.max (Z.max (pos t - a) 0) 0) with (Z.max (pos t - a) 0) by lia. reflexivity.
+  - destruct Hin as [->|Hin]; [congruence|]. rewrite (IH pos x a (Some t) Hin). reflexivity.
+Qed.
+
+Lemma shl_loop_notin : forall len l pos x a prev, ~ In x l -> shl_loop len pos l x a prev = (pos, 0).
+Proof.
+  induction l as [|t r IH]; intros pos x a prev Hn; cbn [shl_loop]; [reflexivity|].
+  destruct (Nat.eqb_spec x t) as [->|NE]; [exfalso; apply Hn; left; reflexivity|].
+  apply IH. intros Hin; apply Hn; right; exact Hin.
+Qed.
+
+Lemma shr_loop_notin : forall len l pos size x a, ~ In x l -> shr_loop len pos size l x a = (pos, 0).
+Proof.
+  induction l as [|t r IH]; intros pos size x a Hn; cbn [shr_loop]; [reflexivity|].
+  destruct (Nat.eqb_spec x t) as [->|NE]; [exfalso; apply Hn; left; reflexivity|].
+  apply IH. intros Hin; apply Hn; right; exact Hin.
+Qed.
+
+Lemma shr_loop_spec : forall len l pos lo size x a, ok pos len lo size l -> In x l ->
+  let tgt := Z.min (pos x + a) (next_start pos size l x - len x) in
+  shr_loop len pos size l x a = (upd pos x tgt, tgt - pos x).
+Proof.
+  induction l as [|t r IH]; intros pos lo size x a H Hin; [contradiction|]. cbn [shr_loop next_start].
+  cbn [ok] in H. destruct H as (H1 & H2 & H3 & H4).
+  destruct (Nat.eqb_spec x t) as [->|NE].
+  - cbn zeta. destruct r as [|n r'].
+    + destruct (Z.ltb_spec size (pos t + a + len t)).
+      * replace (Z.min (pos t + a) (size - len t)) with (size - len t) by lia. reflexivity.
+      * replace (Z.min (pos t + a) (size - len t)) with (pos t + a) by lia. reflexivity.
+    + cbn [ok] in H4. destruct H4 as (G1 & G2 & G3 & G4).
+      destruct (Z.ltb_spec (pos n) (pos t + a + len t)).
+      * replace (Z.min (pos t + a) (pos n - len t)) with (pos n - len t) by lia. reflexivity.
+      * destruct (Z.ltb_spec size (pos t + a + len t)); [lia|].
+        replace (Z.min (pos t + a) (pos n - len t)) with (pos t + a) by lia. reflexivity.
+  - destruct Hin as [->|Hin]; [congruence|]. apply (IH pos _ size x a H4 Hin).
+Qed.
+
+(* moving x inside the free space around it keeps the layout well-formed *)
+Lemma ok_move : forall pos len l lo size x v,
+  ok pos len lo size l -> In x l ->
+  prev_end_from pos len lo l x <= v -> v + len x <= next_start pos size l x ->
+  ok (upd pos x v) len lo size l.
+Proof.
+  induction l as [|t r IH]; intros lo size x v H Hin Hlo Hhi; [contradiction|].
+  pose proof (ok_NoDup _ _ _ _ _ H) as Hnd. inversion Hnd as [|? ? Hnt Hnd']; subst.
+  cbn [ok] in H. destruct H as (H1 & H2 & H3 & H4). cbn [prev_end_from next_start] in *. cbn [ok].
+  destruct (Nat.eqb_spec x t) as [->|NE].
+  - rewrite upd_same. destruct r as [|n r'].
+    + repeat split; try lia.
+    + cbn [ok] in H4. destruct H4 as (G1 & G2 & G3 & G4).
+      split; [lia|split; [lia|split; [lia|]]].
+      apply ok_upd_notin; [exact Hnt|]. cbn [ok]. split; [lia|split; [lia|split; [lia|exact G4]]].
+  - destruct Hin as [->|Hin]; [congruence|].
+    rewrite (upd_other pos x v t) by congruence. repeat split; try lia. apply IH; assumption.
+Qed.
+
+Lemma prev_end_bounds : forall pos len l lo size x, ok pos len lo size l -> In x l ->
+  lo <= prev_end_from pos len lo l x <= pos x.
+Proof.
+  induction l as [|t r IH]; intros lo size x H Hin; [contradiction|].
+  cbn [ok] in H. destruct H as (H1 & H2 & H3 & H4). cbn [prev_end_from].
+  destruct (Nat.eqb_spec x t) as [->|NE]; [lia|].
+  destruct Hin as [->|Hin]; [congruence|]. specialize (IH _ _ _ H4 Hin). lia.
+Qed.
+
+Lemma next_start_bounds : forall pos len l lo size x, ok pos len lo size l -> In x l ->
+  pos x + len x <= next_start pos size l x <= size.
+Proof.
+  induction l as [|t r IH]; intros lo size x H Hin; [contradiction|].
+  cbn [ok] in H. destruct H as (H1 & H2 & H3 & H4). cbn [next_start].
+  destruct (Nat.eqb_spec x t) as [->|NE].
+  - destruct r as [|n r']; [lia|]. cbn [ok] in H4. lia.
+  - destruct Hin as [->|Hin]; [congruence|]. apply (IH _ _ _ H4 Hin).
+Qed.
+
+Lemma ok_shift_left : forall pos len l size x a,
+  ok pos len 0 size l -> ok (fst (do_shift_left len pos l x a)) len 0 size l.
+Proof.
+  intros * H. unfold do_shift_left. destruct (a <=? 0) eqn:Ea; [exact H|].
+  destruct (in_dec Nat.eq_dec x l) as [Hin|Hn]; [|rewrite shl_loop_notin by exact Hn; exact H].
+  rewrite (shl_loop_spec len l pos x a None Hin). cbn [fst].
+  pose proof (prev_end_bounds _ _ _ _ _ _ H Hin). pose proof (next_start_bounds _ _ _ _ _ _ H Hin).
+  apply Z.leb_gt in Ea. apply ok_move; try assumption; lia.
+Qed.
+
+Lemma ok_shift_right : forall pos len l size x a,
+  ok pos len 0 size l -> ok (fst (do_shift_right len pos size l x a)) len 0 size l.
+Proof.
+  intros * H. unfold do_shift_right. destruct (a <=? 0) eqn:Ea; [exact H|].
+  destruct (in_dec Nat.eq_dec x l) as [Hin|Hn]; [|rewrite shr_loop_notin by exact Hn; exact H].
+  rewrite (shr_loop_spec len l pos 0 size x a H Hin). cbn [fst].
+  pose proof (prev_end_bounds _ _ _ _ _ _ H Hin). pose proof (next_start_bounds _ _ _ _ _ _ H Hin).
+  apply Z.leb_gt in Ea. apply ok_move; try assumption; lia.
+Qed.
